@@ -1,6 +1,7 @@
 package l1
 
 import (
+	"strings"
 	"encoding/json"
 	"fmt"
 	"io"
@@ -222,8 +223,29 @@ func (d *driver) next() M {
 	case w < 96:
 		return M{"type": "ExportImport"}
 	default:
-		qs := []string{"Bridge", "Bridges", "NextL1Sequence", "LastFinalizedOutput", "OutputProposal", "OutputProposals", "OutputProposals", "BatchInfos", "TokenPairByL1Denom"}
+		if r.Intn(8) == 0 { // ask about a withdrawal that has been paid
+			st := d.ch.Project()
+			for bk, v := range absx.Map(st["claimed"]) {
+				for lid := range absx.Map(v) {
+					var bb, seq, amt int64
+					var from, to, denom string
+					parts := strings.Split(lid, "|")
+					if len(parts) != 6 {
+						continue
+					}
+					fmt.Sscan(parts[0], &bb)
+					fmt.Sscan(parts[1], &seq)
+					from, to, denom = parts[2], parts[3], parts[4]
+					fmt.Sscan(parts[5], &amt)
+					_ = bk
+					return M{"type": "Query", "q": "Claimed", "b": bb, "idx": int64(0), "denom": "d1", "w": M{"seq": seq, "from": from, "to": to, "denom": denom, "amt": amt},
+						"offset": int64(0), "limit": int64(0), "reverse": false}
+				}
+			}
+		}
+		qs := []string{"Bridge", "Bridges", "NextL1Sequence", "LastFinalizedOutput", "OutputProposal", "OutputProposals", "OutputProposals", "BatchInfos", "TokenPairByL1Denom", "TokenPairByL2Denom", "TokenPairs", "Claimed", "Params"}
 		return M{"type": "Query", "q": pick(r, qs), "b": b, "idx": int64(r.Intn(6)), "denom": pick(r, []string{"d1", "d2", "d3"}),
+			"w": M{"seq": int64(1 + r.Intn(6)), "from": pick(r, users), "to": pick(r, users), "denom": pick(r, []string{"d1", "d2"}), "amt": int64(1 + r.Intn(3))},
 			"offset": int64(r.Intn(4)), "limit": int64(pick(r, []int{0, 1, 2, 3, 10})), "reverse": r.Intn(2) == 0}
 	}
 }
